@@ -20,6 +20,7 @@ import (
 	"github.com/ovrclk/akash/pubsub"
 	"github.com/ovrclk/akash/sdl"
 	"github.com/ovrclk/akash/util/runner"
+	"github.com/ovrclk/akash/util/veriftrace"
 	"github.com/ovrclk/akash/validation"
 	dtypes "github.com/ovrclk/akash/x/deployment/types"
 	mtypes "github.com/ovrclk/akash/x/market/types"
@@ -111,6 +112,7 @@ func (m *manager) handleManifest(req manifestRequest) {
 	case <-m.lc.ShuttingDown():
 		m.log.Error("not running: handle manifest")
 		req.ch <- ErrNotRunning
+		m.vreply(req.ch, ErrNotRunning)
 	}
 }
 
@@ -125,6 +127,7 @@ func (m *manager) handleUpdate(version []byte) {
 func (m *manager) run(donech chan<- *manager) {
 	defer m.lc.ShutdownCompleted()
 	defer func() { donech <- m }()
+	defer veriftrace.Gate("manifest-manager-done")
 
 	var runch <-chan runner.Result
 
@@ -147,6 +150,7 @@ loop:
 		case <-stopch:
 			m.log.Error(ErrShutdownTimerExpired.Error())
 			m.lc.ShutdownInitiated(ErrShutdownTimerExpired)
+			m.vtrace("stop-timer", runch != nil)
 			break loop
 
 		case ev := <-m.leasech:
@@ -156,6 +160,7 @@ loop:
 			m.emitReceivedEvents()
 			m.maybeScheduleStop()
 			runch = m.maybeFetchData(ctx, runch)
+			m.vtrace("lease", runch != nil)
 
 		case id := <-m.rmleasech:
 			m.log.Info("lease removed", "lease", id)
@@ -167,15 +172,18 @@ loop:
 			}
 
 			m.maybeScheduleStop()
+			m.vtrace("lease-removed", runch != nil)
 
 		case req := <-m.manifestch:
 			m.log.Info("manifest received")
+			m.vrequest(req)
 
 			m.requests = append(m.requests, req)
 			m.validateRequests()
 			m.emitReceivedEvents()
 			m.maybeScheduleStop()
 			runch = m.maybeFetchData(ctx, runch)
+			m.vtrace("manifest", runch != nil)
 
 		case version := <-m.updatech:
 			m.log.Info("received version", "version", hex.EncodeToString(version))
@@ -183,6 +191,7 @@ loop:
 			if m.data != nil {
 				m.data.Deployment.Version = version
 			}
+			m.vtrace("update", runch != nil)
 
 		case result := <-runch:
 			runch = nil
@@ -191,6 +200,7 @@ loop:
 				m.log.Error("error fetching data", "err", err)
 				// Fetching data failed, all requests are now in an error state
 				m.fillAllRequests(err)
+				m.vtrace("fetch-err", runch != nil)
 				break
 			}
 
@@ -201,6 +211,7 @@ loop:
 			m.validateRequests()
 			m.emitReceivedEvents()
 			m.maybeScheduleStop()
+			m.vtrace("fetch-ok", runch != nil)
 
 		}
 	}
@@ -208,6 +219,7 @@ loop:
 	cancel()
 
 	m.fillAllRequests(ErrNotRunning)
+	m.vtrace("stop", runch != nil)
 
 	if m.stoptimer != nil {
 		if m.stoptimer.Stop() {
@@ -218,6 +230,7 @@ loop:
 	if runch != nil {
 		<-runch
 	}
+	m.vtrace("exit", false)
 
 }
 
@@ -265,11 +278,13 @@ func (m *manager) maybeScheduleStop() bool { // nolint:golint,unparam
 func (m *manager) fillAllRequests(response error) {
 	for _, reqch := range m.pendingRequests {
 		reqch <- response
+		m.vreply(reqch, response)
 	}
 	m.pendingRequests = nil
 
 	for _, req := range m.requests {
 		req.ch <- response
+		m.vreply(req.ch, response)
 	}
 	m.requests = nil
 }
@@ -299,11 +314,13 @@ func (m *manager) emitReceivedEvents() {
 		}); err != nil {
 			m.log.Error("publishing event", "err", err, "lease", lease.LeaseID)
 		}
+		m.vannounce(lease.LeaseID, manifest)
 	}
 
 	// A manifest has been published, satisfy all pending requests
 	for _, reqch := range m.pendingRequests {
 		reqch <- nil
+		m.vreply(reqch, nil)
 	}
 	m.pendingRequests = nil
 }
@@ -318,6 +335,7 @@ func (m *manager) validateRequests() {
 		if err := m.validateRequest(req); err != nil {
 			m.log.Error("invalid manifest", "err", err)
 			req.ch <- err
+			m.vreply(req.ch, err)
 			continue
 		}
 		manifests = append(manifests, &req.value.Manifest)
